@@ -443,7 +443,7 @@ pub struct SeqCase {
     pub items: Vec<Vec<u8>>,
 }
 
-fn seq_packet(item: &[u8], mode: &Mode) -> Option<Packet> {
+pub fn seq_packet(item: &[u8], mode: &Mode) -> Option<Packet> {
     if item.len() == 1 {
         let tape = [7u8; 16];
         let mut t = crate::refs::image::Tape::new(&tape);
@@ -467,7 +467,9 @@ fn seq_packet(item: &[u8], mode: &Mode) -> Option<Packet> {
     decode_one(item, mode).ok()
 }
 
-pub struct OneCodec;
+/// the signature prefix names the property on whose behalf the part runs (C01 and C02 use it too: a frame that carries
+/// left-overs of an earlier packet neither round-trips nor conforms to the layout)
+pub struct OneCodec(pub &'static str);
 impl Part for OneCodec {
     type Case = SeqCase;
     fn name(&self) -> &'static str {
@@ -489,7 +491,7 @@ impl Part for OneCodec {
                 (Ok(Ok(x)), Ok(Ok(y))) => {
                     ensure!(
                         x == y,
-                        format!("c03:codec-carries-state-between-packets:{kind}"),
+                        format!("{}:codec-carries-state-between-packets:{kind}", self.0),
                         "{} mode, packet #{i} ({kind}) of the sequence: the connection's codec emitted {} bytes {}, a fresh codec {} bytes {}",
                         mode_name(&mode),
                         x.len(),
@@ -497,13 +499,28 @@ impl Part for OneCodec {
                         y.len(),
                         hex(&y[..y.len().min(40)])
                     );
+                    // ... and the used codec reads its own frame back like a fresh one does
+                    let mut b1 = bytes::BytesMut::from(&x[..]);
+                    let mut b2 = bytes::BytesMut::from(&x[..]);
+                    let d1 = guard(|| shared.decode(&mut b1).map(|p| format!("{p:?}")).map_err(|e| e.to_string()));
+                    let d2 = guard(|| insim::net::Codec::new(mode.clone()).decode(&mut b2).map(|p| format!("{p:?}")).map_err(|e| e.to_string()));
+                    ensure!(
+                        d1 == d2 && b1.len() == b2.len(),
+                        format!("{}:codec-carries-state-between-packets:{kind}", self.0),
+                        "{} mode, packet #{i} ({kind}): the connection's codec decodes its frame to {:?} (left {} bytes), a fresh codec to {:?} (left {})",
+                        mode_name(&mode),
+                        d1.as_ref().map(|r| r.as_ref().map(|s| s.chars().take(80).collect::<String>())),
+                        b1.len(),
+                        d2.as_ref().map(|r| r.as_ref().map(|s| s.chars().take(80).collect::<String>())),
+                        b2.len()
+                    );
                     if refused_before {
                         after_refusal += 1;
                     }
                 },
                 (Ok(Err(_)) | Err(_), Ok(Err(_)) | Err(_)) => refused_before = true,
                 _ => fail!(
-                    format!("c03:codec-carries-state-between-packets:{kind}"),
+                    format!("{}:codec-carries-state-between-packets:{kind}", self.0),
                     "{} mode, packet #{i} ({kind}): the connection's codec answered {:?}, a fresh codec {:?}",
                     mode_name(&mode),
                     a.as_ref().map(|r| r.as_ref().map(|v| v.len())),
@@ -575,7 +592,7 @@ pub fn ver_frame_strategy() -> impl Strategy<Value = MutCase> {
 }
 
 pub fn parts() -> Vec<Box<dyn DynPart>> {
-    vec![Box::new(Counts), Box::new(TextLengths), Box::new(FromImages), Box::new(AcceptedFrames), Box::new(MsoTextStart), Box::new(OneCodec), Box::new(LengthFn)]
+    vec![Box::new(Counts), Box::new(TextLengths), Box::new(FromImages), Box::new(AcceptedFrames), Box::new(MsoTextStart), Box::new(OneCodec("c03")), Box::new(LengthFn)]
 }
 
 pub fn run(run: &mut Run) {
@@ -655,7 +672,7 @@ pub fn run(run: &mut Run) {
     run.prop(&MsoTextStart, mso_case_strategy(), n);
     // (6) sequences of packets (refused ones among them) on one codec instance, as a connection uses it
     let n = run.budget(40_000, 2_000_000);
-    run.prop(&OneCodec, seq_strategy(), n);
+    run.prop(&OneCodec("c03"), seq_strategy(), n);
     // (7) Mode::encode_length directly: every length 0..=70 000 and lengths around every integer width, both modes (complete)
     let mut lens: Vec<(bool, u64)> = vec![];
     for compressed in [false, true] {
